@@ -694,6 +694,58 @@ func (e *env) probe(rt gin.RouteInfo, f filling, c cred) {
 	}
 }
 
+// revokeCommitRefused: a revocation whose DELETE statement goes through but whose COMMIT is refused by SQLite (a deferred
+// foreign-key reference to the token row). If the API acknowledges the revocation, the token is a revoked token and must be
+// refused on every API route from then on; if it reports an error, nothing is asserted about the token.
+func (e *env) revokeCommitRefused(routes []gin.RouteInfo) {
+	r := e.r
+	t, err := e.st.Svc.Tokens.GenerateToken()
+	if err != nil {
+		r.Violate("harness|fixture-token", err.Error(), e.case0, nil)
+		return
+	}
+	tok := t.Token
+	_ = e.st.HTTP(http.MethodGet, prefix+"/access", nil, map[string]string{"Authorization": "Bearer " + tok})
+	if _, err := e.st.DB.Exec(`CREATE TABLE IF NOT EXISTS verif_tokref(token VARCHAR(255) REFERENCES tokens(token) DEFERRABLE INITIALLY DEFERRED)`); err != nil {
+		r.Violate("harness|commit-fault", err.Error(), e.case0, nil)
+		return
+	}
+	defer func() {
+		_, _ = e.st.DB.Exec(`DROP TABLE IF EXISTS verif_tokref`)
+		_ = e.st.Svc.Tokens.DeleteToken(tok)
+	}()
+	if _, err := e.st.DB.Exec(`INSERT INTO verif_tokref VALUES (?)`, tok); err != nil {
+		r.Violate("harness|commit-fault", err.Error(), e.case0, nil)
+		return
+	}
+	w := e.st.HTTP(http.MethodDelete, prefix+"/access/"+tok, nil, rig.Admin())
+	_, _ = e.st.DB.Exec(`DELETE FROM verif_tokref`)
+	r.Count("revocations_with_refused_commit", 1)
+	r.Count(fmt.Sprintf("revocations_with_refused_commit_answered_%dxx", w.Code/100), 1)
+	if w.Code != http.StatusOK {
+		return
+	}
+	for _, rt := range routes {
+		if !isAPI(rt.Path) {
+			continue
+		}
+		fs := e.fillings(rt)
+		if len(fs) == 0 {
+			continue
+		}
+		f := fs[0]
+		routeSig := rt.Method + " " + rt.Path
+		caseID := fmt.Sprintf("%s/%s/revoked-with-refused-commit", e.case0, routeSig)
+		wa := e.do(rt.Method, f.target, f.body, cred{class: clRevoked, has: true, value: "Bearer " + tok, shape: "Bearer <token whose revocation was acknowledged>"})
+		r.Count("requests_with_token_revoked_under_refused_commit", 1)
+		if wa.Code != http.StatusUnauthorized {
+			r.Violate("revocation-acknowledged-but-token-accepted|commit-refused", fmt.Sprintf("DELETE %s/access/:token answered 200 although the database refused the commit; %s with that token then answered %d, expected 401", prefix, routeSig, wa.Code),
+				caseID, map[string]any{"config": e.p.String(), "request": rt.Method + " " + f.target, "status": wa.Code, "token_row_present": e.tokenInDB(tok)})
+			return
+		}
+	}
+}
+
 // failingTokenStore: while the token look-up itself fails inside the SQL layer (the tokens table is renamed away, so
 // every SELECT errors), a request whose token is NOT known to be valid must still be refused before any handler logic
 // runs: 401 or a 5xx are acceptable, reaching the handler is not (fail closed).
@@ -874,6 +926,7 @@ func (e *env) runPoint() {
 	}
 	if e.p.Auth {
 		e.failingTokenStore(routes)
+		e.revokeCommitRefused(routes)
 	}
 	r.Count("configurations", 1)
 	r.Count("api_routes_enumerated", int64(nAPI))
@@ -900,6 +953,7 @@ func body(r *ev.Run) {
 		r.Require("requests_refused_class", 800)
 		r.Require("admin_route_requests_with_user_token", 8)
 		r.Require("requests_auth_off", 1000)
+		r.Require("revocations_with_refused_commit", 4)
 		r.Require("routes_outside_prefix_websocket", 8)
 		r.Require("routes_outside_prefix_profiling", 4)
 		r.Require("routes_outside_prefix_metrics", 4)
